@@ -41,6 +41,27 @@ CHECKS = {
  "C08": dict(engine="noise", design_ref="DESIGN.md 6 C08",
    text="NoIdentityInClear / ClearIndependentOfIdentity are checked by TLC on all NoiseAdv scenarios and the size formula on every EncLoop schedule; real outputs of library and CLI for pairs of encryptions differing only in identities are compared on the cleartext positions, against 132|36 + 32*records + plaintext, and searched for every encoding of both public keys and of long random keyring names (Trace_Noise, event 'clear').",
    note="AEAD ciphertext is treated as opaque. Identity search covers raw, hex, base64 and keyring encodings only."),
+ "C09": dict(engine="cli", design_ref="DESIGN.md 6 C09",
+   text="Totality of the decoders is a model-level fact (DecLoop: Termination under fairness, BoundedRequest with hostile length fields, every adversarial file ends in ok or a named error); conformance: TLC enumerates input shapes per surface (Shapes.tla) and argument vectors (Argv.tla); every shape is instantiated with all lengths 0..N and all lengths around every field boundary and pushed through key_decrypt, pass_decrypt, the chunk loop, noise_decrypt, chapoly_decrypt_ietf, valid_file_format, EncodedPk/EncodedSk + decode/unlock and Keyring::new under catch_unwind with a counting allocator; every argument vector up to k words is run with the real binary; TLC validates exit status in {0,1}, 'Error:' iff 1, no panic/abort/hang, heap within a per-surface constant.",
+   note="Exhaustive only in the lengths and vocabulary stated in the evidence; random bytes beyond. Built with overflow checks and debug assertions on (the profile the repository's tests use). Hang = 30 s watchdog."),
+ "C12": dict(engine="cli", design_ref="DESIGN.md 6 C12",
+   text="Cli.tla models every command as the ordered list of steps the code performs, each failing for the causes C13 lists; TLC checks ExitTruthful / MatchesContract for the full product of wirings and emits the configurations; each is materialised from specification-built keys, keyrings and ciphertexts, run with the real binary, and exit status, 'Error:' line, output bytes and the 'File from' / 'Unknown key' line are validated by TLC against CliContract!Expected, which sees only the abstract request (so equal requests must give equal outcomes whatever the wiring).",
+   note="Passwords via --env-pass and a piped stdin only; terminal prompts are out of scope. Quick tier runs every wiring for decrypt and a diagonal slice for the other commands; thorough runs the full product."),
+ "C13": dict(engine="cli", design_ref="DESIGN.md 6 C13",
+   text="NoClobber / PrefixOnLaterFailure are model-checked on Cli.tla for every command x cause x prior state; every such configuration is run with the real binary and the output path's existence and bytes before/after are validated against CliContract!Expected (untouched / absent on early failure, exactly the authenticated first chunk on later failure, exit 1).",
+   note="Failure causes are injected through arguments, environment and file contents; file-system I/O errors are not injected at process level (C10 does that in-process)."),
+ "C14": dict(engine="cli", design_ref="DESIGN.md 6 C14",
+   text="KeyLife.tla enumerates histories (initial state of F x n generations) with the invariant KeepsKeys; each history is run through `kestrel key generate -o F`; after every step: earlier bytes are a prefix, the tree's Keyring::new accepts the file and lists the sections in order, and the new key encrypts-then-decrypts through the CLI under its own password (Trace_Cli, event 'gen').",
+   note="Distinct names; n <= 2 (quick) / 3 (thorough) generations per history."),
+ "C15": dict(engine="keyring", design_ref="DESIGN.md 6 C15",
+   text="LockModel.tla states Lock/Unlock over the symbolic algebra (lossless, tamper evident, wrong password fails) and enumerates the case analysis; lock_private_key output must equal the evaluated LockedKey term (documented format), term-built strings must unlock, and the tamper lattice (every bit of the 84-byte blob in thorough, every length 0..120, other alphabets, other passwords incl. near misses) must be refused (Trace_Keyring).",
+   note="Known finding (recorded, not repairable without changing the format): passwords that are the same HMAC-SHA256 key (trailing NULs, >64-byte password vs its digest) are interchangeable; the symbolic model's 'Scrypt is injective in the password' is false exactly there."),
+ "C16": dict(engine="cli", design_ref="DESIGN.md 6 C16",
+   text="KeyLife.tla enumerates histories of change-pass / extract-pub / use over four passwords (IdentityKept, SaltsFresh); each is run through the CLI; after every step the newest string is unlocked by the specification's LockedKey term under every password used so far (original key under the newest only, salt never seen before), extract-pub is compared with EncodedPub(X25519(sk)) and the PublicKey line of generation, and all output is searched for the private key (Trace_Cli, event 'life').",
+   note="Histories of 3 operations (40 sampled in quick, all 216+ in thorough) plus one long history; passwords via environment."),
+ "C17": dict(engine="keyring", design_ref="DESIGN.md 6 C17",
+   text="Keyring.tla transcribes parse_config/add_key line by line and is checked by TLC against the declarative contract KeyringContract for every token sequence up to n lines that is not already refused on a prefix; each sequence is rendered in several whitespace / line-ending styles and given to the tree's Keyring::new; verdict (three-valued), entries in order and look-ups are validated by TLC (Trace_Keyring); encoded public keys: every single-character corruption and wrong checksums must be unusable.",
+   note="Token alphabet of 17 line classes; names/keys from small value sets incl. 128/129-byte names and an interior tab (the defect D3, fixed)."),
 }
 
 NOT_YET = "check not built yet (work in progress, DESIGN.md section 12)"
@@ -72,6 +93,10 @@ def main():
          "kind_free_text": "EncLoop/DecLoop/AFile (TLC) -> behaviours -> scripted Read/Write replay on the real code -> Trace_Stream validation"},
         {"name": "noise", "path": "lib/checks_noise.py", "serves_properties": ["C05", "C06", "C07", "C08"],
          "kind_free_text": "NoiseX/NoiseAdv/WireFormat/Fresh/Chunkings (TLC) -> scenarios -> real key_encrypt/key_decrypt/CLI + term evaluator -> Trace_Noise / Trace_Fresh validation"},
+        {"name": "keyring", "path": "lib/checks_keyring.py", "serves_properties": ["C15", "C17"],
+         "kind_free_text": "Keyring/KeyringContract/LockModel (TLC) -> token sequences / tamper cases -> the tree's keyring.rs compiled into the driver -> Trace_Keyring validation"},
+        {"name": "cli", "path": "lib/checks_cli.py", "serves_properties": ["C09", "C12", "C13", "C14", "C16"],
+         "kind_free_text": "Cli/CliContract/KeyLife/Argv/Shapes (TLC) -> configurations, histories, argument vectors, input shapes -> real kestrel binary / driver surfaces -> Trace_Cli / Trace_Fuzz validation"},
     ]
     m = {"version": 1,
          "setup_cmd": "cd /verif/harness && CARGO_NET_OFFLINE=true cargo build --release --offline",
